@@ -8,7 +8,8 @@ from fractions import Fraction
 import z3
 
 ID = "C02"
-FUNCTIONS = [("sleap_nn.inference.single_instance", "SingleInstanceInferenceModel.forward"), ("sleap_nn.inference.topdown", "CentroidCrop.forward"),
+FUNCTIONS = [("sleap_nn.data.instance_cropping", "make_centered_bboxes"), ("sleap_nn.inference.peak_finding", "crop_bboxes"),
+             ("sleap_nn.inference.single_instance", "SingleInstanceInferenceModel.forward"), ("sleap_nn.inference.topdown", "CentroidCrop.forward"),
              ("sleap_nn.inference.topdown", "CentroidCrop._generate_crops"), ("sleap_nn.inference.topdown", "FindInstancePeaks.forward"),
              ("sleap_nn.inference.topdown", "TopDownInferenceModel.forward"), ("sleap_nn.inference.peak_finding", "find_global_peaks"),
              ("sleap_nn.inference.peak_finding", "find_global_peaks_rough"), ("sleap_nn.inference.peak_finding", "find_local_peaks"), ("sleap_nn.inference.peak_finding", "find_local_peaks_rough"),
@@ -57,11 +58,14 @@ def configs(tier, seed):
     # one batch of two frames of different sizes, size-matched to a common max_height/max_width: each frame has its own effective scale
     for provider in (("VideoReader",) if tier == "quick" else ("VideoReader", "LabelsReader")):
         out.append(dict(kind="predictor", model="single", provider=provider, scale=1.0, max_stride=4, H=4, W=4, frames=[[4, 4], [8, 8]], max_hw=8, batch=2))
+    # binary32 slice: the crop that top-down inference cuts around a centroid has exactly the configured size for EVERY float32 centroid
+    for bh, bw in (((64, 48),) if tier == "quick" else ((64, 48), (160, 160), (5, 7))):
+        out.append(dict(kind="float32-crop", box_h=bh, box_w=bw))
     return out
 
 
 def run_config(cfg):
-    return {"single": _run_single, "topdown": _run_topdown, "predictor": _run_predictor}[cfg["kind"]](cfg)
+    return {"single": _run_single, "topdown": _run_topdown, "predictor": _run_predictor, "float32-crop": _run_float_crop}[cfg["kind"]](cfg)
 
 
 def _install():
@@ -249,6 +253,62 @@ def _run_topdown(cfg):
     return rep.finish(extra={"ops": sorted(T.OPS_USED)})
 
 
+# ------------------------------------------------------------------ binary32 slice of the crop-size arithmetic
+CROP_RANGE = (-64.0, 8192.0)
+
+
+def _crop_size_slice(bh, bw):
+    """make_centered_bboxes (corners of the box around a centroid) composed with crop_bboxes (size of the crop cut from those corners), both lifted
+    from their CURRENT source and evaluated in binary32, the format of the tensors they compute on."""
+    import sleap_nn.data.instance_cropping as ic
+    import sleap_nn.inference.peak_finding as pf
+    from symx.fpast import FloatSlice, F32
+    cx, cy = z3.FP("cx", F32), z3.FP("cy", F32)
+    s1 = FloatSlice(ic.make_centered_bboxes, {}, ["<return>"], sort=F32, subs={"centroids[..., 0]": cx, "centroids[..., 1]": cy, "box_height": z3.FPVal(bh, F32), "box_width": z3.FPVal(bw, F32)})
+    corners = s1.exprs["<return>"]
+    subs = {f"bboxes[0, {i}, {j}]": corners[i][j] for i in range(4) for j in range(2)}
+    s2 = FloatSlice(pf.crop_bboxes, {}, ["box_size"], sort=F32, subs=subs)
+    return (cx, cy), s1, s2
+
+
+def _run_float_crop(cfg):
+    import time
+    from symx.harness import Report
+    from symx.fpast import F32, fp_model_value
+    from symx.xf import EngineGap
+    rep = Report(cfg)
+    rep.paths = rep.nontrivial_paths = 1
+    rep.witness("model-with-visible-and-invisible-node", True)
+    name = "FC1-crop-has-the-configured-size-for-every-binary32-centroid"
+    bh, bw = cfg["box_h"], cfg["box_w"]
+    try:
+        (cx, cy), s1, s2 = _crop_size_slice(bh, bw)
+        bs = s2.exprs["box_size"]
+        if not (isinstance(bs, tuple) and len(bs) == 2):
+            raise EngineGap("box_size is not a pair")
+    except EngineGap as e:
+        rep.record(name, "unknown")
+        rep.inconclusive_item("float32-crop", f"slice not extractable from the current source: {e}")
+        return rep.finish()
+    sol = z3.Solver()
+    sol.set("timeout", 240000)
+    lo, hi = z3.FPVal(CROP_RANGE[0], F32), z3.FPVal(CROP_RANGE[1], F32)
+    sol.add(z3.fpGEQ(cx, lo), z3.fpLEQ(cx, hi), z3.fpGEQ(cy, lo), z3.fpLEQ(cy, hi))
+    sol.add(z3.Not(z3.And(z3.fpEQ(bs[0], z3.FPVal(bh, F32)), z3.fpEQ(bs[1], z3.FPVal(bw, F32)))))
+    t0 = time.time()
+    r = str(sol.check())
+    dt = time.time() - t0
+    rep.record(name, r, dt)
+    if r == "sat":
+        mo = sol.model()
+        c = [fp_model_value(mo, cx), fp_model_value(mo, cy)]
+        rep.violation(name, "float32:crop-size", f"in binary32 the crop cut around centroid {c} is not {bh}x{bw}", {"centroid": c, "slice": dict(s1.source(), **s2.source())})
+    elif r != "unsat":
+        rep.inconclusive_item(name, "solver returned unknown / timeout")
+    rep.sample({"slice": dict(s1.source(), **s2.source()), "centroid_range": list(CROP_RANGE), "box": [bh, bw]})
+    return rep.finish(stats={"queries": 1, "solver_s": dt})
+
+
 # ------------------------------------------------------------------ predictor level
 class _FakeReader:
     def __init__(self, frames):
@@ -380,6 +440,16 @@ def replay(cfg, inputs, obligation):
     import torch, numpy as np
     import sleap_nn.inference.single_instance as si
     import sleap_nn.inference.topdown as td
+    if cfg["kind"] == "float32-crop":
+        import sleap_nn.inference.peak_finding as pf_
+        from sleap_nn.data.instance_cropping import make_centered_bboxes
+        from symx.harness import unjson_float
+        bh, bw = cfg["box_h"], cfg["box_w"]
+        c = torch.tensor([unjson_float(inputs["centroid"])], dtype=torch.float32)
+        boxes = make_centered_bboxes(c, bh, bw)
+        crops = pf_.crop_bboxes(torch.zeros(1, 1, 32, 32), boxes, sample_inds=[0])
+        got = tuple(crops.shape[-2:])
+        return got != (bh, bw), f"crop around centroid {c.tolist()} has size {got}, configured {(bh, bw)}"
     if cfg["kind"] == "single":
         G, s, isc, eff, B = cfg["G"], cfg["stride"], cfg["input_scale"], cfg["eff"], cfg["batch"]
         K, V = inputs["keypoints"], inputs["visible"]
